@@ -2,8 +2,10 @@ package checks
 
 import (
 	"fmt"
+	"os"
 	"sort"
 	"strings"
+	"sync"
 
 	"github.com/huderlem/poryscript/parser"
 
@@ -333,6 +335,11 @@ func shapeOfBlock(b *spec.Block) string {
 
 // rejectFamily reduces an error message to a short family name for counters.
 func rejectFamily(msg string) string {
+	if strings.HasPrefix(msg, "line ") {
+		if i := strings.Index(msg, ": "); i > 0 {
+			msg = msg[i+2:]
+		}
+	}
 	w := strings.Fields(msg)
 	if len(w) > 6 {
 		w = w[:6]
@@ -443,3 +450,13 @@ func normFull(t *ref.Trace) []string {
 	}
 	return append(out, "=>"+t.Term)
 }
+
+// debugReject prints a rejected source when VERIF_DEBUG_REJECT is a substring
+// of the error (development aid).
+func debugReject(src, err string) {
+	if pat := os.Getenv("VERIF_DEBUG_REJECT"); pat != "" && strings.Contains(err, pat) {
+		debugOnce.Do(func() { fmt.Fprintf(os.Stderr, "---- rejected (%s)\n%s\n----\n", err, src) })
+	}
+}
+
+var debugOnce sync.Once
